@@ -86,7 +86,13 @@ def run(ctx):
     blobs = foreign_pickles(ctx, 3 * n)
     specs = [{"seed": ctx.seed * 1000003 + 1, "steps": 0, "probes": PROBES, "base_width": 10}]  # the empty history
     for i in range(n):
-        specs.append({"seed": ctx.seed * 1000003 + 7 * i + 11, "steps": rng.randint(5, 40), "probes": PROBES, "base_width": 10,
+        order = None
+        if i % 2:
+            from .. import boot as B
+            order = list(B.ALL_MODULES)
+            rng.shuffle(order)
+            ctx.count("histories_with_shuffled_import_order")
+        specs.append({"seed": ctx.seed * 1000003 + 7 * i + 11, "steps": rng.randint(5, 40), "probes": PROBES, "base_width": 10, "order": order,
                       "define_dimension": ctx.tier == "thorough" and i % 5 == 0,
                       "foreign_pickles": blobs[3 * i:3 * i + 3] if not (ctx.tier == "thorough" and i % 5 == 0) else []})
     with ThreadPoolExecutor(max_workers=14) as ex:
